@@ -192,6 +192,7 @@ def parseCfgItem (c : Cfg) (item : String) : Option Cfg :=
   | ["v", v] => do some { c with nCondvars := ← v.toNat? }
   | ["n", v] => do some { c with nNotifies := ← v.toNat? }
   | ["q", v] => do some { c with nChans := ← v.toNat? }
+  | ["ckpt", _] => some c          -- checkpoint file name: used by the harness only
   | _ => none
 
 def parseCfg (s : String) : Option Cfg :=
